@@ -593,6 +593,80 @@ def upvar_sources(prog, b):
     return out
 
 
+def subst_upvars(term, mapping):
+    """replace ("upvar", name) nodes by mapping[name] (terms of the enclosing body)"""
+    if isinstance(term, tuple):
+        if len(term) == 2 and term[0] == "upvar" and term[1] in mapping:
+            return mapping[term[1]]
+        return tuple(subst_upvars(x, mapping) for x in term)
+    return term
+
+
+def memo_value(prog, b, term):
+    """`memo.get_or_insert_with(|| f(..))` on an Option local that starts as None and is only ever filled by closures computing the SAME
+    value: returns that value as a term of `b` (the memoised computation), else None.  (`let mut m = None; ... m.get_or_insert_with(|| x)`
+    computes x at most once and hands out the same x every time - a pure caching idiom)"""
+    from engine import paths
+    t = K.peel(term)
+    if not (isinstance(t, tuple) and t and t[0] == "call" and t[1].endswith("Option::get_or_insert_with") and len(t[2]) == 2):
+        return None
+    site = [c for c in b.calls() if c.bb == t[3]]
+    if not site:
+        return None
+    pl = site[0].raw["args"][0].get("m") or site[0].raw["args"][0].get("c")
+    if pl is None:
+        return None
+
+    def memo_local(c):
+        """the Option local whose &mut is handed to this get_or_insert_with call"""
+        a = c.raw["args"][0].get("m") or c.raw["args"][0].get("c")
+        if a is None or a["p"]:
+            return None
+        for (_k, _bb, _i, st) in [d for d in b.defs().get(a["l"], []) if d[0] == "stmt"]:
+            rv = st["rv"]
+            if rv["k"] == "ref" and rv.get("mut") and not rv["pl"]["p"]:
+                return rv["pl"]["l"]
+        return None
+    L = memo_local(site[0])
+    if L is None:
+        return None
+    # other definitions of the memo: only `None`
+    for d in b.defs().get(L, []):
+        if d[0] != "stmt":
+            return None
+        rv = d[3]["rv"]
+        if not (rv["k"] == "agg" and rv.get("ak") == "adt" and rv.get("variant") == "None"):
+            return None
+    vals = []
+    for c in b.calls():
+        if not c.name.endswith("Option::get_or_insert_with") or memo_local(c) != L:
+            continue
+        ct = b.operand_term(c.args[1])
+        if not (isinstance(ct, tuple) and ct and ct[0] == "closure"):
+            return None
+        cb = prog.bodies.get(ct[1])
+        if cb is None:
+            return None
+        rows = paths.decision_table(cb, prog)
+        rets = set(r for _a, r, _bl in rows)
+        if len(rets) != 1 or None in rets:
+            return None
+        mapping = {}
+        for nm, ot in ct[2]:
+            mapping[nm] = ot[1] if isinstance(ot, tuple) and ot and ot[0] == "ref" and len(ot) == 2 else ot
+        vals.append(subst_upvars(next(iter(rets)), mapping))
+    # every mutable borrow of the memo must be one of those calls (nothing else writes it)
+    borrows = [st for bl in b.blocks for st in bl["stmts"] if st["k"] == "assign" and st["rv"]["k"] == "ref" and st["rv"].get("mut") and st["rv"]["pl"]["l"] == L]
+    if not vals or len(borrows) != len(vals):
+        return None
+
+    def strip(x):
+        return _strip_ids(x) if "_strip_ids" in globals() else x
+    if any(strip(v) != strip(vals[0]) for v in vals):
+        return None
+    return vals[0]
+
+
 WATERMARK_FIELDS = (("FinalityTracker", "first_unpruned_slot"), ("ParentReadyTracker", "root"))
 
 
